@@ -177,13 +177,17 @@ AllowedIsServed == (Client /\ Done /\ Allowed(acl, req.src)) => written # "none"
 (* per-client views: same containment rule, first matching view in declaration order;
    a matching view without a record lets the query fall through, it does not hand the
    client to a later view *)
-FirstMatchingView ==
+FirstMatchingView ==       \* stated without the FirstMatch operator the action uses
+  LET In(i)    == Contains({views[i].net}, req.src)
+      Firstly(i) == In(i) /\ \A j \in 1..(i - 1) : ~In(j)
+  IN
   /\ written = "views" =>
-        /\ Client /\ viewSel = FirstMatch(req.src) /\ viewSel # 0 /\ views[viewSel].has
+        /\ Client /\ viewSel \in 1..Len(views) /\ Firstly(viewSel) /\ views[viewSel].has
   /\ (Client /\ Done /\ Allowed(acl, req.src)) =>
-        LET i == FirstMatch(req.src) IN
-        IF i # 0 /\ views[i].has THEN written = "views" /\ viewSel = i
-        ELSE written \in {"cache", TailH}
+        /\ \A i \in 1..Len(views) :
+              Firstly(i) => IF views[i].has THEN written = "views" /\ viewSel = i
+                            ELSE written \in {"cache", TailH}
+        /\ (\A i \in 1..Len(views) : ~In(i)) => written \in {"cache", TailH}
 
 (* resolver-internal sub-queries never meet client policy *)
 PolicyH == {"accesslist", "ratelimit", "reflex", "views"}
